@@ -165,7 +165,12 @@ class MapSet(Generic[NoteListT, HitListT, HoldListT, BpmListT, MapT]):
             return pd.DataFrame([i[item] for i in self.stackers])
 
         def __setitem__(self, key, value):
-            for s, i in zip(self.stackers, value.iloc):
+            if isinstance(value, pd.DataFrame):
+                values = value.iloc
+            else:
+                # A scalar is assigned to every map, like Map.Stacker does
+                values = [value] * len(self.stackers)
+            for s, i in zip(self.stackers, values):
                 s[key] = i
 
         _props = ["offset", "column", "length", "bpm", "metronome"]
